@@ -45,10 +45,12 @@ class Sim:
 
     def prefix(self, k0):
         for _ in range(k0):
+            # the honest prefix is judged too (as in-phase valid calls), so that a session that is broken for another
+            # reason is recognised before the automaton's expectations are applied to it
             if self.turn():
-                self.act("W", judged=False)
+                self.act("W")
             else:
-                self.act("R", judged=False)
+                self.act("R")
 
     def act(self, a, judged=True):
         c = self.c
@@ -242,6 +244,9 @@ class CheckC11(core.Check):
         p_init = role == "i"
         ids = ("P", "Q") if p_init else ("Q", "P")
         sessions.add_pair(c, parsed, keys, rng=("script:1", "script:2"), rec=("-", "-"), ids=ids)
+        # control: an undisturbed session of the same configuration must complete (else nothing below is C11's doing)
+        sessions.add_pair(c, parsed, keys, rng=("script:1", "script:2"), rec=("-", "-"), ids=("P2", "Q2") if p_init else ("Q2", "P2"))
+        c.meta["control"] = c.op("pingpong", a="P2" if p_init else "Q2", b="Q2" if p_init else "P2", max=8, plen=2, seed="ctl")
         sim = Sim(c, parsed, p_init)
         sim.prefix(k0)
         if seqs.startswith("rand:"):
@@ -274,6 +279,10 @@ class CheckC11(core.Check):
             return r
         exp = case.meta["exp"]
         oop = 0
+        ctl = [e for e in events if e.label == str(case.meta.get("control")) and e.op == "pingpong"]
+        if not ctl or ctl[0].res != "done:bothfin":
+            r.foreign_dev("C02", "an undisturbed session of this configuration does not complete")
+            return r
         for e in events:
             if not e.label.isdigit() or int(e.label) not in exp:
                 if e.party == "Q" and e.label.isdigit() and (e.err or e.panic) and e.op != "pingpong":
